@@ -95,7 +95,9 @@ class Sequence(AbstractSequence):
 
         if self.parent is not None and self.parent.location is not None:
             if isinstance(key, slice):
-                rel_start, rel_end, _ = key.indices(len(self))
+                rel_start, rel_end, step = key.indices(len(self))
+                if step != 1:
+                    raise ValueError("Slices with a step are not supported for a Sequence with a parent location")
                 rel_end = max(rel_start, rel_end)
             else:
                 rel_start = key
